@@ -211,8 +211,47 @@ fn judge_pair(c: &PairCase, cls: &mut Classifier) -> Verdict {
     Ok(())
 }
 
+// ---------------------------------------------------------------- CLI sample: the passphrase reaches the seed unchanged
+
+#[derive(Clone, Debug, Serialize, Deserialize)]
+pub struct CliCase {
+    pub phrase: String,
+    pub passphrase: String,
+    pub via_env: bool,
+}
+
+fn judge_cli(c: &CliCase, cls: &mut Classifier) -> Verdict {
+    use crate::cli::Invocation;
+    use crate::refimpl::bip32;
+    let Ok(entropy) = bip39::decode_phrase(&c.phrase) else { return fail("valid phrase", c.phrase.clone(), "bad case") };
+    let canonical = bip39::encode_phrase(&entropy);
+    let normalised: String = c.passphrase.nfkd().collect();
+    let seed = bip39::seed_from_normalised(&canonical, &normalised);
+    let key = bip32::derive(&seed, &bip32::default_path(0)).expect("reference key");
+    let mut inv = Invocation::new(&["export", "--mnemonic", &c.phrase]);
+    inv = if c.via_env { inv.env("PASSWORD", c.passphrase.clone()) } else { inv.arg(format!("--password={}", c.passphrase)) };
+    let Some(out) = crate::cli::run_global(&inv) else { return fail("cli", "not configured", "CLI not available") };
+    if out.timed_out {
+        cls.label("timed-out");
+        return Ok(());
+    }
+    let want = format!("0x{}\n", hex_lower(&key));
+    if !out.ok() || out.stdout_str() != want {
+        return fail(want, out.describe(), format!("`hdwallet export` with passphrase \"{}\" ({}): the exported key must derive from PBKDF2(phrase, 'mnemonic'+NFKD(passphrase))", escape(&c.passphrase), if c.via_env { "PASSWORD env" } else { "--password=" }));
+    }
+    cls.label("cli-export");
+    if c.passphrase.trim() != c.passphrase {
+        cls.label("cli-passphrase-with-outer-whitespace");
+    }
+    if normalised != c.passphrase {
+        cls.label("cli-passphrase-changed-by-nfkd");
+    }
+    cls.nontrivial(&(c.phrase.as_str(), c.passphrase.as_str(), c.via_env));
+    Ok(())
+}
+
 pub fn run(ctx: &mut Ctx) {
-    ctx.rule = "valid mnemonics of all five lengths in two random ASCII white-space layouts x passphrases {empty, ASCII, Latin precomposed, base+combining marks, full-width, compatibility signs/ligatures, Hangul, CJK/kana, astral (math alphanumerics, emoji with ZWJ/VS), mixtures, arbitrary scalars <= 64}. Oracle 1: PBKDF2-HMAC-SHA512 written out over hmac, P = reference-canonical phrase, S = 'mnemonic' + NFKD(passphrase). Oracle 2 (independent of unicode-normalization): the hand-written NFKD pair table (788 pairs) and arithmetic Hangul decomposition: seed(a) == seed(hand-decomposed a) == reference PBKDF2 over the hand-decomposed bytes; non-equivalent look-alikes give different seeds; two layouts of the same words give the same seed. Non-trivial: passphrase not empty/'TREZOR' or length not 12/24; distinct by (words, normalised passphrase).".into();
+    ctx.rule = "valid mnemonics of all five lengths in two random ASCII white-space layouts x passphrases {empty, ASCII, Latin precomposed, base+combining marks, full-width, compatibility signs/ligatures, Hangul, CJK/kana, astral (math alphanumerics, emoji with ZWJ/VS), mixtures, arbitrary scalars <= 64}. Oracle 1: PBKDF2-HMAC-SHA512 written out over hmac, P = reference-canonical phrase, S = 'mnemonic' + NFKD(passphrase). Oracle 2 (independent of unicode-normalization): the hand-written NFKD pair table (788 pairs) and arithmetic Hangul decomposition: seed(a) == seed(hand-decomposed a) == reference PBKDF2 over the hand-decomposed bytes; non-equivalent look-alikes give different seeds; two layouts of the same words give the same seed. CLI sample: `export` with passphrases carrying outer white space / NFKD-sensitive characters (flag and PASSWORD env) must print the reference-derived key. Non-trivial: passphrase not empty/'TREZOR' or length not 12/24; distinct by (words, normalised passphrase).".into();
     ctx.assumptions = vec![
         "unicode-normalization is used as the NFKD primitive for generated passphrases; cross-checked by the hand-written table".into(),
         "hmac + sha2::Sha512 are correct".into(),
@@ -246,6 +285,32 @@ pub fn run(ctx: &mut Ctx) {
     }
     ctx.run_cases("pairs", &pairs, judge_pair);
     ctx.exhaustive_parts.push("the whole hand-written NFKD pair table per sampled mnemonic".into());
+    if crate::cli::global_cli().is_some() {
+        let mut cc = vec![];
+        let outer = [" ", "  ", "\t", "\n", "\u{3000}", "\u{a0}", "\r\n"];
+        for i in 0..ctx.tier.pick(160, 3000) as u64 {
+            let tape = crate::engine::Prng::new(ctx.sub_seed("cli", i)).bytes(200);
+            let mut u = U::new(&tape);
+            let base = gen_case(tape.clone());
+            let (mut pw, _) = gen_pass(&mut u);
+            pw = pw.replace('\0', "");
+            match i % 4 {
+                0 => pw = format!("{}{pw}", outer[u.below(outer.len())]),
+                1 => pw = format!("{pw}{}", outer[u.below(outer.len())]),
+                2 => pw = format!("{}{pw}{}", outer[u.below(outer.len())], outer[u.below(outer.len())]),
+                _ => {}
+            }
+            cc.push(CliCase { phrase: base.phrase, passphrase: pw, via_env: i % 3 == 0 });
+        }
+        ctx.run_cases("cli-export", &cc, judge_cli);
+        if ctx.cls.count("timed-out") > 0 {
+            ctx.inconclusive("CLI watchdog expired");
+        }
+        ctx.floor_abs("cli-passphrase-with-outer-whitespace", 80);
+        ctx.floor_abs("cli-passphrase-changed-by-nfkd", 30);
+    } else {
+        ctx.inconclusive("CLI executable not available for the passphrase pass-through sample");
+    }
     let total = n as u64;
     ctx.floor("passphrase-changed-by-nfkd", total, 0.2);
     ctx.floor("astral", total, 0.05);
@@ -261,6 +326,7 @@ pub fn replay(sub: &str, case: &Value) -> Option<Verdict> {
     match sub {
         "seed" => Some(replay_as::<Case>(case, judge)),
         "pairs" => Some(replay_as::<PairCase>(case, judge_pair)),
+        "cli-export" => Some(replay_as::<CliCase>(case, judge_cli)),
         _ => None,
     }
 }
